@@ -271,6 +271,7 @@ VTable(g, L) ==
        V(have \subseteq want, "C04:session table holds a session that should not exist"),
        V((want \ have) \cap A = {}, "C04:addressed session missing from the session table"),
        V((want \ have) \ A = {}, "C05:a session not addressed by the message was removed"),
+       V((want \ have) \ A = {}, "C04:the SEID issued to a live session no longer resolves to it (session dropped by a message for another SEID / node)"),
        V(NoDup(L.snap.free), "C04:free list holds a SEID twice"),
        V(Rng(L.snap.free) \cap have = {}, "C04:free list holds the SEID of a live session"),
        V("0" \notin have, "C04:SEID 0 in use") }
